@@ -727,3 +727,38 @@ def gen_spin_candidate(rng):
     p = {"outs": [{"type": "int", "name": "t", "default": 0}, {"type": "int", "name": "u", "default": None}], "hooks": ["hk"],
          "finish_codes": [], "yield_codes": [], "body": stmts}
     return p, pr_prog(p)
+
+
+# ---------------------------------------------------------------------------
+# yield / resumption shapes (C02, C10): yields right before the end of the program, before nullable
+# tails, in token loops, after waits -- the places where re-invocation at a chunk boundary is delicate
+# ---------------------------------------------------------------------------
+def gen_yield_shape(rng):
+    lit = lambda: ("lit", bytes(rng.choice(b"HKabxyz:;=") for _ in range(rng.randint(1, 3))))
+    tail = lambda: rng.choice([("re", ("star", ("cls", "\\d"))), ("re", ("star", ("cls", "\\w"))), ("re", ("opt", ("c", 33)))])
+    outs = [{"type": "str", "name": "s0", "size": rng.choice([4, 8]), "null": True, "default": None}, {"type": "int", "name": "n0", "default": None}]
+    ycodes = ["Y0", "Y1", "Y2"]
+    k = rng.choice(["case_tail", "lit_yield_end", "lit_yield_optional", "token_loop", "wait_yield", "yield_first", "two_yields", "yield_in_try"])
+    a = lit(); b = lit()
+    while b[1][0] == a[1][0]:
+        b = lit()
+    y = lambda: ("yield", rng.choice(ycodes))
+    act = lambda: rng.choice([("assign", "n0", ("bin", "+", ("var", "n0"), ("num", 1))), ("assign", "n0", ("last",))])
+    if k == "case_tail":
+        body = [("case", [([a], [y()])] + ([([b], [act(), y()])] if rng.random() < 0.5 else [])), rng.choice([("append", "s0", tail()), ("match", tail())])]
+    elif k == "lit_yield_end":
+        body = [("match", a), y()] + ([act()] if rng.random() < 0.3 else [])
+    elif k == "lit_yield_optional":
+        body = [("match", a), y(), ("optional", [("match", b)])]
+    elif k == "token_loop":
+        body = [("loop", None, [("case", [([a], [y()]), ([b], [act(), y()]), ([("re", ("plus", ("cls", "\\d")))], [y()])])])]
+    elif k == "wait_yield":
+        body = [("wait", a), y(), ("match", tail())]
+    elif k == "yield_first":
+        body = [y(), ("match", a), y(), ("match", tail())]
+    elif k == "two_yields":
+        body = [("match", a), y(), y(), ("match", b), y()]
+    else:
+        body = [("try", [("match", a), y(), ("match", b)], ["nomatch"], [y(), ("match", tail())])]
+    p = {"outs": outs, "hooks": [], "finish_codes": [], "yield_codes": ycodes, "body": body}
+    return p, pr_prog(p)
